@@ -339,7 +339,7 @@ def multiset(xs):
 
 
 def exporters(cls):
-    return [m for m, cs in G.LIBS.items() if cls in cs]
+    return [m for m, cs in G.LIBS.items() if cls in cs] or (['my-lib.A'] if cls == 'Zed' else [])
 
 
 def judge(job, before, prop, after, new_text):
@@ -445,8 +445,27 @@ WITNESSES = [
 ]
 
 
+KLASS_PATH = 'C16-module-path-not-importable'
+KEYWORDS = {'import', 'from', 'class', 'interface', 'private', 'function', 'method', 'val', 'let', 'if', 'else', 'match', 'as', 'true',
+            'false', 'this', 'unit', 'int', 'bool', 'then', 'const'}
+
+
+def unimportable_path(module):
+    """a module whose path cannot be written after `from`: a segment that is not an identifier, or is a keyword"""
+    return any(not re.match(r'^[A-Za-z][A-Za-z0-9]*$', seg) or seg in KEYWORDS for seg in (module or '').split('.'))
+
+
+def path_witness_job():
+    src = G.lib_sources()
+    src['my-lib.A'] = 'class Zed {\n  function make(): int = 5\n}\n'
+    text = 'class Main {\n  function main(): int = Zed.make()\n}\n'
+    src[G.DOC] = text
+    return {'id': 'witness/module-path', 'sources': src, 'history': [], 'doc': G.DOC, 'cls': 'Zed', 'use_name': 'Zed', 'text': text,
+            'layout': {'kind': 'witness', 'name': 'module-path'}, 'history_kind': 'none'}
+
+
 def witness_jobs():
-    out = []
+    out = [path_witness_job()]
     for name, text in WITNESSES:
         src = G.lib_sources()
         src[G.DOC] = text
@@ -475,7 +494,7 @@ def layer_c(ck, jobs, tag):
             continue
         if job['use_name'] == job['cls']:
             offered = sorted({p['module'] for p in props if p['kind'] == 'quickfix' and p['cls'] == job['cls']})
-            ck.count('C:quickfix_offers_every_exporter' if offered == sorted(G.CANDIDATES[job['cls']]) else 'C:quickfix_offer_incomplete')
+            ck.count('C:quickfix_offers_every_exporter' if offered == sorted(G.CANDIDATES.get(job['cls'], ['my-lib.A'])) else 'C:quickfix_offer_incomplete')
         d = Doc(job['text'])
         for p in props:
             if p['kind'] == 'panic':
@@ -528,6 +547,14 @@ def replay_input(job, prop=None):
     return d
 
 
+def module_of_title(p):
+    m = re.search(r'from `([^`]*)`', p.get('title') or '')
+    if m:
+        return m.group(1)
+    m = re.search(r' from ([^;\n]*);', ' '.join(e.get('text', '') for e in p.get('edits') or []))
+    return m.group(1).strip() if m else ''
+
+
 def report(ck, failing):
     """One property failure per (failure kinds, proposal kind), smallest document first."""
     groups = {}
@@ -541,7 +568,7 @@ def report(ck, failing):
         ck.property_failure(what, replay_input(job, p),
                             expected='document that parses, imports %s, no CannotResolveClass for it, same toplevels' % p['cls'],
                             observed={'document_before': job['text'], 'document_after': new_text},
-                            how=HOW, klass=KLASS if nosemi else None)
+                            how=HOW, klass=KLASS if nosemi else KLASS_PATH if unimportable_path(p.get('module') or module_of_title(p)) else None)
 
 
 def encoding_probe(ck):
